@@ -64,6 +64,8 @@ def pipeline(zone, east, north, ell_ht, vcv, forward):
 
 def _run(repo, rep):
     alg.reset()
+    from .. import symcheck as _sc
+    _sc.set_ranges({'x': (1.0e6, 7.0e6), 'y': (1.0e6, 7.0e6), 'z': (1.0e6, 7.0e6)})
     common.state_rule(repo, rep, [('geodepy.transform', 'transform_mga94_to_mga2020'), ('geodepy.transform', 'transform_mga2020_to_mga94')])
     published_rules(repo, rep)
     wire_rules(repo, rep)
